@@ -127,18 +127,15 @@ func genModes(t *Tracer, m *Meta, tier string, seed int64) {
 		runModesCase(t, m, c, append(append([]string{}, keys...), common, common+"\x00", "x"))
 		m.class("long-run+fanout12")
 	}
-	for i := 0; i < 4; i++ {
-		c := bigMimicCase(r, "i32")
-		if i%2 == 1 {
-			c = dedupBigCase(r, "i32")
-		}
+	for _, nc := range specialShapes(r, "i32", [4]int{2, 2, 2, 2}, 3, seed) {
+		c := nc.C
 		qs := querySet(r, c.Keys, 100)
 		for j := 0; j < 60 && j < len(c.Keys); j++ {
 			qs = append(qs, c.Keys[r.Intn(len(c.Keys))])
 		}
 		sort.Strings(qs)
 		runModesCase(t, m, c, uniq(qs))
-		m.class([]string{"special:bigmimic", "special:dedupbig"}[i%2])
+		m.class(nc.Name)
 	}
 	for _, keys := range [][]string{{}, {""}, {"a"}} {
 		enc := pickEnc(r, "C13")
